@@ -148,9 +148,15 @@ for _pid, _what in {
 @check("C06")
 def c06(prop, tier, t0):
     m = grid_run("c06", tier)
+    # state part: the same axes with different deadzones in three mappings, mapping up/down incl. pair reset (Engine A)
+    bm, bcov = enga_run(prop, tier)
+    m["violations"].extend(bm["violations"])
+    m["exhaustive"] = m["exhaustive"] and bm["exhaustive"]
     cov = generic_cov(m, "fresh real device per configuration variant {signed 8-bit, unsigned 8-bit, hat, signed 16-bit} x deadzone source {per-axis table, per-handler default} x deadzone x flip x deadzone_at_center x {CC, bidirectional CC, pitch bend}; "
                          "8-bit axes: EVERY ordered pair (previous raw, new raw); 16-bit: edge neighbourhoods + every 257th value after 5 previous values; compared at the receiver with an exact-rational reference "
                          "(within one step, monotonic, end stops exact, rest value exact); plus end stops/centre for every deadzone 0.00..0.99. distinct_nontrivial = configuration variants driven.")
+    cov["bfs_states"], cov["bfs_transitions"], cov["bfs_traces_validated_against_impl"] = bcov["states"], bcov["transitions"], bcov["traces_validated_against_impl"]
+    cov["rule"] += " Plus an explicit-state search (Engine A) over axis positions x mapping up/down (three mappings giving the same axes different deadzones / flip, incl. the pair reset): after every transmitted step the receiver value must match the CURRENT mapping's transfer function."
     return vlib.finish(prop, tier, "exploration", m, cov, [
         "axes whose AbsInfo has max <= 0 or min > max are outside 'within the axis' reported range'",
         "the global default deadzone (sub-handler \"\" fallback) is unreachable through the parser (it always records a per-handler default) and is not enumerated",
